@@ -197,6 +197,17 @@ CHECKS += [
          technique="symbolic execution of measurement-splitting transforms and their post-processing on polynomial terms vs direct results; z3 QF_NRA"),
 ]
 
+CHECKS += [
+    dict(property_id="C34", category="proof", engine=E1,
+         text="Partial (parameter-shift family + device adjoint): 12 circuits (2-term, 4-term, Rot/CRot/U3, Ising, excitation, Toffoli, shared and non-trainable "
+              "parameters) x 8 measurement lists (expval of Pauli words / sums / Hermitian, probs, var incl. var of a Sum) go through the REAL param_shift "
+              "(default, broadcast, custom exact shifts incl. a two-shift rule for the 4-term gate, argnum), hadamard_grad and the device-level "
+              "adjoint_jacobian / adjoint_vjp / adjoint_jvp; generated tapes are evaluated by the matrix-route oracle, the REAL post-processing assembles the "
+              "Jacobian, and z3 proves equality with d/d(theta) from the symbolic differentiator for ALL parameter values.",
+         note=PROOF_NOTE + " Shims: object work buffers in devices.qubit.adjoint_jacobian and PauliSentence.dot. Outside: backprop (autodiff frameworks cannot trace solver terms), finite_diff, SPSA, QNode interface plumbing, operators with numeric generators.",
+         technique="symbolic execution of gradient transforms / adjoint differentiation on polynomial terms vs symbolic differentiation of the circuit result; z3 QF_NRA"),
+]
+
 _NOT_BUILT = "claimed in DESIGN.md §4 but its solver-based check is not built yet in this tree"
 NOT_APPLICABLE_REASONS = {
     "C04": "equality/hash: Python hash() of concrete payloads and tolerance-based allclose relations; no exact relation a solver can decide",
